@@ -17,6 +17,7 @@ const (
 func init() {
 	register("C15", func(c *core.Ctx, tier string) {
 		skipEOFRefined(c, "C15.7b")
+		eofWithCompleteFrame(c, "C15.7c")
 		connReadEffects(c, "C15.10")
 		connWriteEffects(c, "C15.11")
 		errPolarity(c, "C15.9", "webtransport")
